@@ -53,7 +53,7 @@ def minimums(tier: str) -> Dict[str, int]:
     if tier == "quick":
         return {"evaluations": 1500, "distinct": 700, "pages_checked": 6000, "glyphs_checked": 20000, "selections_checked": 600,
                 "cyclic_docs": 60, "inherited_attr_pages": 2000, "seen:rotate_values": 10}
-    return {"evaluations": 30000, "distinct": 15000, "pages_checked": 150000, "glyphs_checked": 500000, "selections_checked": 60000,
+    return {"evaluations": 30000, "distinct": 15000, "pages_checked": 150000, "glyphs_checked": 500000, "selections_checked": 12000,
             "cyclic_docs": 1500, "inherited_attr_pages": 40000, "seen:rotate_values": 12}
 
 
